@@ -247,7 +247,7 @@ func c13Exec(op string) string {
 }
 
 func c13Gen(r *Rng, tier string, emit func(string)) {
-	n := 400
+	n := 800
 	if tier == "thorough" {
 		n = 6000
 	}
@@ -285,7 +285,7 @@ func c13Gen(r *Rng, tier string, emit func(string)) {
 		}
 		// existing signatures
 		m := k
-		switch r.Intn(12) {
+		switch r.Intn(24) {
 		case 0:
 			m = k + 1
 		case 1:
@@ -309,7 +309,7 @@ func c13Gen(r *Rng, tier string, emit func(string)) {
 					s = []string{"v", "g"}[r.Intn(2)]
 				}
 			case 3:
-				if r.Chance(90) {
+				if r.Chance(90) && it%5 == 0 {
 					s = "v"
 				}
 			}
@@ -317,7 +317,7 @@ func c13Gen(r *Rng, tier string, emit func(string)) {
 		}
 		// index selection
 		var idx []string
-		switch r.Intn(8) {
+		switch []int{0, 1, 0, 2, 2, 3, 3, 3, 4, 5, 6, 7, 7, 2}[r.Intn(14)] {
 		case 0, 1: // empty = all unsigned
 		case 2: // exactly the unsigned ones
 			for i, s := range sigs {
